@@ -258,7 +258,10 @@ def claims(tier):
         for lo in range(0, len(psuf), 4):
             sub_ = psuf[lo : lo + 4]
             cl.append(Claim("prefix_suffix[%s,%d-%d]" % (pk, lo, lo + len(sub_) - 1), c08_prefix_suffix, params={"keys": [pk], "suffixes": sub_}, group="c08_prefix_suffix", pre=[lambda pre, ki, d, si: spelled("C" + pre, 2) and ki == 0 and 0 <= d < 7 and 0 <= si < len(P["suffixes"])], timeout=900 if q else 3000, bounds="key %s: prefix = every string over {#,b} of length <= 2 (symbolic) in front of numeral + suffix %r; 7 degrees" % (pk, sub_)))
-    cl.append(Claim("unrecognised", c08_unrecognised, pre=[lambda s: 1 <= len(s) <= (3 if q else 4)], timeout=900 if q else 3000, bounds="every unicode string of length 1..%d without '#'/'b' whose leading I/V run is not a numeral" % (3 if q else 4)))
+    cl.append(Claim("unrecognised", c08_unrecognised, pre=[lambda s: 1 <= len(s) <= 3], timeout=900 if q else 3000, bounds="every unicode string of length 1..3 without '#'/'b' whose leading I/V run is not a numeral"))
+    if not q:
+        cl.append(Claim("unrecognised[len4,numeral-led]", c08_unrecognised, group="c08_unrecognised", pre=[lambda s: len(s) == 4 and s[0] in "IViv"], timeout=3000, per_path=300, bounds="every unicode string of length 4 starting with I, V, i or v, without '#'/'b', whose leading I/V run is not a numeral"))
+        cl.append(Claim("unrecognised[len4,other]", c08_unrecognised, group="c08_unrecognised", pre=[lambda s: len(s) == 4 and s[0] not in "IViv"], timeout=3000, per_path=300, bounds="every unicode string of length 4 not starting with I, V, i or v, without '#'/'b'"))
     nsfx = 12 if q else len(SUFFIXES) + 2
     for d0 in range(7):
         cl.append(Claim("parse_format[%s]" % NUM_UP[d0], c08_parse_format, params={"d0": d0, "nsfx": nsfx}, group="c08_parse_format", pre=[lambda pre, d, si: spelled("C" + pre, 3) and d == P["d0"] and 0 <= si < P["nsfx"]], timeout=900 if q else 3000, bounds="prefix #^k or b^k, k <= 3 (symbolic); numeral %s; %d suffixes" % (NUM_UP[d0], nsfx)))
